@@ -116,6 +116,10 @@ cdef class LegacyRecordBatch:
             unsigned long crc = 0
             char * buf
 
+        # NOTE: After iteration of a compressed message the buffer holds the
+        #       uncompressed payload, which can be shorter than a header
+        if self._buffer.len < MAGIC_OFFSET:
+            return False
         buf = <char*> self._buffer.buf
         cutil.calc_crc32(
             0,
